@@ -338,10 +338,13 @@ class _Execution:
         self.trace: List[Any] = []
 
     # ---------- building the batch
-    def _generic_args(self) -> List[List[Any]]:
+    def _generic_args(self, reference: bool = False) -> List[List[Any]]:
         args = []
         for task in self.sc["tasks"]:
             spec = {k: task.get(k) for k in ("i", "payload", "raise", "unpicklable_result", "mutate_arg")}
+            if not reference:
+                spec["ms"] = task.get("ms", 1)
+                spec["stall"] = bool(task.get("stall"))
             extra = copy.deepcopy(task.get("extra", []))
             if task.get("unpicklable_arg"):
                 extra.append(lambda: None)
@@ -455,7 +458,7 @@ class _Execution:
         self._size_probes(len(tasks), k)
         # reference: every call evaluated in-process, on private argument copies
         reference: List[Tuple[bool, Any]] = []
-        for argset in self._generic_args():
+        for argset in self._generic_args(reference=True):
             try:
                 reference.append((True, func(*argset)))
             except Exception as err:  # pylint: disable=broad-except
